@@ -7,6 +7,10 @@
  R2 entry points: every public registration / drawing method that takes a resource name stores it
     into a name-bearing content operator or a resource map; unless the method validates the name
     (rejects non-regular characters) the name reaches both ends verbatim.
+ R3 the user's font wins its name: the loop of `write_page_with_fonts` that adds the document's registered fonts to the page's /Font
+    dictionary sets the entry on every iteration — no `contains_key` / `get` test on that dictionary can skip it. The dictionary is
+    pre-filled with the built-in Type1 stubs under their PostScript names, so "existing key wins" makes a font registered as
+    `Courier` or `Helvetica-Bold` resolve to the stub while the content shows the embedded font's glyph ids.
 Not decided: that the re-parsed name equals the user's string for an independent reader.
 """
 from .. import lib as L
@@ -22,6 +26,7 @@ RES_FIELDS = {"images", "xobjects", "form_xobjects", "color_spaces", "patterns",
 
 
 def run(ctx):
+    r3_registered_font_wins(ctx)
     facts = ctx.facts
     readers = C09.check_readers(ctx)
     summary = C09.check_serializers(ctx, readers, rules=("N1", "N2"))
@@ -85,3 +90,33 @@ def run(ctx):
                           "`a/b` produces a page whose /Resources key and `Do`/`gs`/`cs` operand are two different (or invalid) tokens"
                           % (L.short(fid), " and ".join(dest)), where)
     ctx.floor("R2", "public entry points taking a resource name", n, 5)
+
+
+def r3_registered_font_wins(ctx):
+    from .. import cfg as CF
+    facts = ctx.facts
+    fn = ctx.fn("writer::pdf_writer::PdfWriter::<W>::write_page_with_fonts", "R3")
+    g = CF.cfg(fn)
+    n = 0
+    for h, body in sorted(g.loops().items()):
+        nx = [b for b in body if fn.term(b)[0] == "call" and L.is_call_to(fn.term(b)[1], ["Iterator::next"])
+              and "ObjectId" in (fn.term(b)[1].get("self") or "") and "String" in (fn.term(b)[1].get("self") or "")]
+        sets = [b for b in body if fn.term(b)[0] == "call" and L.is_call_to(fn.term(b)[1], ["Dictionary::set"])]
+        if not nx or not sets or len(body) > 25:
+            continue
+        n += 1
+        key = "write_page_with_fonts:registered-fonts-loop:sets-unconditionally"
+        dest = fn.term(nx[0])[3][0]
+        y, no = L.discr_edges(fn, dest, 1)
+        some_t = [t for s_, t in y if t in body] or [nx[0]]
+        latches = [s_ for s_, hh in g.back_edges() if hh == h]
+        outside = set(range(len(fn.blocks))) - set(body)
+        w = g.path(some_t[0], latches, avoid_blocks=set(sets) | outside)
+        if w is None:
+            ctx.ok("R3", key, "every registered font is set into the page's /Font dictionary", fn.where(h))
+        else:
+            ctx.violation("R3", key, "a font registered by the user can be left out of the page's /Font dictionary when its name is already "
+                          "present (line(s) %s): the dictionary was pre-filled with the built-in Type1 stubs, so a font registered as "
+                          "`Courier` or `Helvetica-Bold` resolves to the non-embedded stub while the content stream selects that name and "
+                          "shows the embedded font's glyph ids" % sorted(set(fn.line(x) for x in w))[:8], fn.where(w[0]))
+    ctx.floor("R3", "registered-fonts loop in write_page_with_fonts", n, 1)
